@@ -70,6 +70,11 @@ def run_template_shapes(ctx, depth):
                 for r in (named if named and rng.random() < 0.8 else [rng.choice(revs)]):
                     r["corrupt"] = True
                 ctx.count("family:corrupt-revision")
+        if rng.random() < 0.2 and not sc["api"].get("others") and not sc["cache"].get("others"):
+            # an object name is a DNS subdomain of up to 253 characters; beyond 63 it is no label value any more (the upgrade
+            # marker selector of ListRevisions carries the set name as a value: the API server answers 400, the harness does too)
+            sc = gen.rename_set(sc, gen.long_name(rng, *rng.choice([(61, 63), (64, 64), (65, 120), (253, 253)])))
+            ctx.count("family:long-set-name")
         sc["ops"] = [{"op": "reconcile"}, {"op": "refresh", "what": "all"}, {"op": "reconcile"}]
         scs.append(sc)
     outs = core.run_harness_parallel("reconcile", scs, shards=16)
